@@ -55,7 +55,7 @@ class Mono(Pair):
 
 
 def jobs(tier):
-    N = 3 if tier == "quick" else 4
+    N = 3 if tier == "quick" else 5
     M = c08.MemberShape
     out = []
     for n in range(1, N + 1):
@@ -122,7 +122,7 @@ ASSUMPTIONS = ["numpy/pandas environment model validated per path against the re
 
 
 def bounds(tier):
-    return {"series_length": "1..3" if tier == "quick" else "1..4", "pairs": "all ordered (loose, strict) parameter pairs: both symbolic, "
+    return {"series_length": "1..3" if tier == "quick" else "1..5", "pairs": "all ordered (loose, strict) parameter pairs: both symbolic, "
             "constrained only by the ordering the property states", "tests": 10}
 
 
